@@ -420,6 +420,12 @@ func (e *c16Env) monitors(a c16Act, res string, pre, post c16Obs) {
 	// written by a successful create / set-metadata whose target denomination — the one whose
 	// admin was just checked above — is the key of that record.
 	for _, x := range c16MetaDiff(pre, post) {
+		if a.kind == "reimport" && e.exists[x] {
+			// importing the token factory's genesis writes the DEFAULT bank metadata of every exported denomination
+			// again (createDenomAfterValidation): the unchanged tree does that, see Props/C16.md; admins, supplies and
+			// balances are what the round trip must keep (checked below)
+			continue
+		}
 		if !(x == a.denom && (a.kind == "create" || a.kind == "setmeta")) {
 			e.hit("only_admin_acts", fmt.Sprintf("%s on %s by %d wrote the bank metadata of %s (tracked admin of that denom: %q)", a.kind, e.enc(a.denom), a.actor, e.enc(x), e.enc(e.adm[x])))
 		}
@@ -440,7 +446,7 @@ func (e *c16Env) monitors(a c16Act, res string, pre, post c16Obs) {
 				e.hit("only_admin_acts", fmt.Sprintf("%s changed admin of %s", a.kind, e.enc(d)))
 			}
 		}
-		if d != a.denom || !(a.kind == "create" || a.kind == "setmeta") {
+		if (d != a.denom || !(a.kind == "create" || a.kind == "setmeta")) && !(a.kind == "reimport" && q.meta == "0") {
 			if p.meta != q.meta {
 				e.hit("only_admin_acts", fmt.Sprintf("%s changed metadata of %s", a.kind, e.enc(d)))
 			}
@@ -1179,6 +1185,14 @@ func TestC16(t *testing.T) {
 					res = "ok"
 					if err := e.god(func(ctx sdk.Context) error { fa.App().TokenFactoryKeeper.SetParams(ctx, p); return nil }); err != nil {
 						res = "blockerr"
+					}
+				case kind < 98: // the chain is exported and started again from the export (token factory module)
+					line = "reimport"
+					act = c16Act{kind: "reimport"}
+					res = "ok"
+					if err := e.god(func(ctx sdk.Context) error { return fa.ReimportModuleCtx(ctx, "tokenfactory", "tokenfactory") }); err != nil {
+						res = "rej:err"
+						e.hit("genesis_round_trip", fmt.Sprintf("export / import of the token factory failed: %v", err))
 					}
 				default:
 					c, s := rng.Intn(4), rng.Intn(4)
